@@ -223,8 +223,6 @@ def p_shell_command(p):
         p[0] = p[1]
     else:
         # while or until
-        handleAssert(p, p[2].kind == 'list')
-
         parts = _makeparts(p)
         kind = parts[0].word
         assert kind in ('while', 'until')
